@@ -44,7 +44,9 @@ static const char* const g_handle_pool[] = {"a",     "b",  "nick", "my handle", 
                                             "a_handle_of_one_hundred_and_thirty_characters_0123456789_0123456789_0123456789_0123456789_0123456789_0123456789_0123456789_012345678"};
 static const int g_num_handles = (int)(sizeof(g_handle_pool) / sizeof(g_handle_pool[0]));
 static const double g_wild[] = {0.0, -0.0, 4.9406564584124654e-324, 2.2250738585072014e-308, 1e300, -1e300, -12345.67, -20.0,
-                                -1.33, 1.0, -1.0, 12345.67, 3.14, 1e-10, 7.0, 0.5};
+                                -1.33, 1.0, -1.0, 12345.67, 3.14, 1e-10, 7.0, 0.5,
+                                // close to the uninitialised marker but not the marker (relative distance >= 1e-6): initialised values
+                                -12345.6, -12346.0, -12345.68234567, -12345.669, -12345.0};
 static const int g_num_wild = (int)(sizeof(g_wild) / sizeof(g_wild[0]));
 
 static std::string decorate(Rng& r, const std::string& name, bool change_case, bool separators) {
